@@ -15,7 +15,7 @@ for p in props:
         mp = f'/verif/seeded/{pid}{suf}/meta.json'
         if os.path.exists(mp):
             m = json.load(open(mp))
-            prev.append((m.get('summary') or '')[:420] + ' || needs: ' + (m.get('needs') or '')[:260])
+            prev.append((m.get('summary') or '')[:380] + ' || needs: ' + (m.get('needs') or '')[:220] + ' || files: ' + ', '.join(m.get('files') or []))
     prevtxt = '\n'.join(f' ({i+1}) "{t}"' for i, t in enumerate(prev))
     quant = p.get('quantifier') or ''
     if isinstance(quant, dict):
@@ -34,7 +34,7 @@ Quantified over: {quant}
 {len(prev)} earlier contributors already produced these changes for this property — do NOT repeat any of them or a close variant, and do not reuse their code sites or trigger conditions:
 {prevtxt}
 
-YOUR TASK: produce ONE realistic change to the library source (files under src/) that BREAKS this property in a way that is NEW in both code site and trigger, while the crate still compiles and its whole existing test-suite still passes (`cargo test --offline` must be green: unit tests, integration tests under tests/, and doc tests). It should look like something a real contributor could plausibly introduce (a refactoring, optimisation, "robustness" tweak, feature addition, dependency-style cleanup...). It must be a genuine violation of the property AS STATED and stay strictly inside what the property quantifies over (re-read the "Quantified over" text: if your trigger needs something outside it, pick another idea). The change should be one a maintainer could merge by accident: plausible motivation, small diff, effect reachable through the public API by a user who does nothing unusual — but look for the part of the public API, the combination of two features, the shape type or the value range that the earlier ideas did NOT touch (for example: a different one of the 13 shape types, the complete Writer/Reader instead of ShapeWriter/ShapeReader or the reverse, path-based instead of in-memory routes, typed instead of generic routes, a conversion or trait impl, an accessor, an error path, a different header field, a boundary such as 0 / 1 / 2 elements). The property will be checked by a randomised / enumerative test generator that already knows the ideas above. Do not edit or delete existing tests.
+YOUR TASK: produce ONE realistic change to the library source (files under src/) that BREAKS this property in a way that is NEW in both code site and trigger, while the crate still compiles and its whole existing test-suite still passes (`cargo test --offline` must be green: unit tests, integration tests under tests/, and doc tests). It should look like something a real contributor could plausibly introduce (a refactoring, optimisation, "robustness" tweak, feature addition, dependency-style cleanup...). It must be a genuine violation of the property AS STATED and stay strictly inside what the property quantifies over (re-read the "Quantified over" text: if your trigger needs something outside it, pick another idea). The change should be one a maintainer could merge by accident: plausible motivation, small diff, effect reachable through the public API by a user who does nothing unusual — but choose, if at all possible, a source file / function that NONE of the earlier changes touched (each summary below names its files), and look for the part of the public API, the combination of two features, the shape type or the value range that the earlier ideas did NOT touch (for example: a different one of the 13 shape types, the complete Writer/Reader instead of ShapeWriter/ShapeReader or the reverse, path-based instead of in-memory routes, typed instead of generic routes, a conversion or trait impl, an accessor, an error path, a different header field, a boundary such as 0 / 1 / 2 elements). The property will be checked by a randomised / enumerative test generator that already knows the ideas above. Do not edit or delete existing tests.
 
 DELIVERABLES, all under {wt}/_out/ (create the directory):
 1. patch.diff — the output of `git diff -- src/` (library source only).
